@@ -33,21 +33,49 @@ def pipeline_function(em):
     comp = em.repo.module('compiler')
     api = comp.functions.get('compile_prolog_from_string')
     views = []
+
+    def reach(f):
+        out, stack = [], [f]
+        while stack:
+            g = stack.pop()
+            if g in out:
+                continue
+            out.append(g)
+            for n, cs in em.cg.calls.get(g, ()):
+                stack.extend(c for c in cs if c.module is comp and c.cls is None)
+        return out
+    entries = [comp.functions.get(n) for n in ('compile_prolog_from_string', 'compile_prolog_from_file', 'main')]
+    entries = [e for e in entries if e is not None]
     if api is not None:
-        callees = []
-        for n, cs in em.cg.calls.get(api, ()):
-            for c in cs:
-                if c.module is comp and c.cls is None and c not in callees:
-                    callees.append(c)
-        for c in callees:
+        # candidates: module-level functions reachable from the library entry whose helper-inlined body builds the lexer
+        cands = []
+
+        def whole(v):
+            # both ends of the pipeline: the lexer and an object of the code generator module
+            ends = False
+            for n in own_nodes(v.node):
+                if isinstance(n, ast.Call) and isinstance(n.func, ast.Name):
+                    r = em.repo.resolve_name(v, n.func.id)
+                    if r and r[0] == 'class' and r[1].module.name == 'yp_generator':
+                        ends = True
+            return _constructs_lexer(v) and ends
+        for c in reach(api):
             v = inline_view(em.repo, c)
-            if _constructs_lexer(v):
-                views.append(v)
-                break
-        if not views:
-            v = inline_view(em.repo, api)
-            if _constructs_lexer(v):
-                views.append(v)
+            if whole(v):
+                cands.append((c, v))
+        if not cands:
+            for c in reach(api):
+                v = inline_view(em.repo, c)
+                if _constructs_lexer(v):
+                    cands.append((c, v))
+        # *the* pipeline: the deepest candidate every entry point (library and command line) reaches - the shared part
+        shared = [(c, v) for c, v in cands if all(c in reach(e) for e in entries)]
+        pool = shared or cands
+        deepest = [(c, v) for c, v in pool if not any(d is not c and d in reach(c) for d, _ in pool)]
+        pick = (deepest or pool)[:1]
+        for c, v in pick:
+            v.shared_by_all = bool(shared)
+            views.append(v)
     covered = set()
     for v in views:
         covered.add(v.origin)
@@ -63,6 +91,25 @@ def pipeline_function(em):
         raise AnalysisError('anchor vanished: no function constructs the generated lexer')
     em._pipeline_views = views
     return views
+
+
+def aliases(f, name):
+    """the local names that are the same object as ``name``: connected by plain ``a = b`` assignments"""
+    out = {name}
+    changed = True
+    while changed:
+        changed = False
+        for n in own_nodes(f.node):
+            if isinstance(n, ast.Assign) and isinstance(n.value, ast.Name) and len(n.targets) == 1 and isinstance(n.targets[0], ast.Name):
+                a, b = n.targets[0].id, n.value.id
+                if (a in out) != (b in out):
+                    out |= {a, b}
+                    changed = True
+    return out
+
+
+def _is_one_of(e, names):
+    return isinstance(e, ast.Name) and e.id in names
 
 
 def _assigned_from_ctor(f, suffix):
@@ -83,11 +130,13 @@ def _always_raises(em, func):
 def _listener_class_raises(em, f, arg):
     """does the object given to addErrorListener raise from syntaxError on every path?"""
     e = arg
-    if isinstance(e, ast.Name):
+    hops = 0
+    while isinstance(e, ast.Name) and hops < 5:
         defs = [s for s in own_nodes(f.node) if isinstance(s, ast.Assign) and any(is_name(t, e.id) for t in s.targets)]
         if len(defs) != 1:
             return None, 'listener %s is not a single local construction' % e.id
         e = defs[0].value
+        hops += 1
     if not isinstance(e, ast.Call):
         return None, 'listener is not constructed here'
     c = em.cg.constructed_class(f, e)
@@ -112,15 +161,17 @@ def rule_raising_recognisers(em, rep, rid, g):
         parser, _ = _assigned_from_ctor(f, 'Parser')
         if lexer is None or parser is None:
             raise AnalysisError('%s: lexer/parser are not bound to local names' % f.qname)
+        parser_names = aliases(f, parser)
         parse_calls = [n for n in cfg.nodes if n.kind == 'call' and isinstance(n.ast.func, ast.Attribute) and
-                       is_name(n.ast.func.value, parser) and n.ast.func.attr in g.rules and not g.is_lexer_rule(n.ast.func.attr)]
+                       _is_one_of(n.ast.func.value, parser_names) and n.ast.func.attr in g.rules and not g.is_lexer_rule(n.ast.func.attr)]
         if not parse_calls:
             raise AnalysisError('%s: no call of a parser rule method found' % f.qname)
         for obj, what in ((lexer, 'lexer'), (parser, 'parser')):
             key = '%s:%s' % (f.qname, what)
+            obj_names = aliases(f, obj)
             adds = [n for n in cfg.nodes if n.kind == 'call' and isinstance(n.ast.func, ast.Attribute) and
-                    is_name(n.ast.func.value, obj) and n.ast.func.attr == 'addErrorListener' and n.ast.args]
-            bail = [n for n in cfg.nodes if n.kind == 'store' and isinstance(n.ast, ast.Attribute) and is_name(n.ast.value, obj)
+                    _is_one_of(n.ast.func.value, obj_names) and n.ast.func.attr == 'addErrorListener' and n.ast.args]
+            bail = [n for n in cfg.nodes if n.kind == 'store' and isinstance(n.ast, ast.Attribute) and _is_one_of(n.ast.value, obj_names)
                     and n.ast.attr == '_errHandler' and 'Bail' in norm(n.info)]
             good = None
             why = 'the %s keeps ANTLR\'s default error handling (errors are printed and recovered from): text outside the ' \
@@ -158,8 +209,9 @@ def rule_end_of_input(em, rep, rid, g, gp):
             continue
         dom = cfg.g.dominators(cfg.entry)
         parser, _ = _assigned_from_ctor(f, 'Parser')
+        parser_names = aliases(f, parser) if parser else set()
         parse_calls = [n for n in cfg.nodes if n.kind == 'call' and isinstance(n.ast.func, ast.Attribute) and
-                       is_name(n.ast.func.value, parser) and n.ast.func.attr == start]
+                       _is_one_of(n.ast.func.value, parser_names) and n.ast.func.attr == start]
         uses = [n for n in cfg.nodes if n.kind == 'call' and isinstance(n.ast.func, ast.Attribute) and n.ast.func.attr == 'visit']
         if not uses:
             uses = [n for n in cfg.nodes if n.kind == 'return']
